@@ -257,7 +257,8 @@ def _worker(args):
                         ck = v["cause_key"]
                         agg["viol_keys"][ck] = agg["viol_keys"].get(ck, 0) + 1
                         if agg["viol_keys"][ck] <= 1 and len(agg["violations"]) < 10:
-                            agg["violations"].append({"idx": idx, "case": case, "violation": v})
+                            agg["violations"].append({"idx": idx, "case": case, "violation": v,
+                                                      "chunk_prefix": list(indices[:list(indices).index(idx) + 1])})
                         else:
                             agg["more_violations"] = agg.get("more_violations", 0) + 1
             elif len(agg["samples"]) < 1 and res["evals"].get(prop, 0) > 0:
@@ -284,19 +285,24 @@ def run_batch(prop, tier, seed, nruns, workers=None, budget_s=None, log=print):
     if workers == 1:
         results = [_worker(t) for t in tasks]
     else:
+        # one freshly forked process per chunk (maxtasksperchild=1): the process state a run sees is exactly the history
+        # of its own chunk - never that of another chunk - so a sequence replay can re-create it
         ctx = multiprocessing.get_context("fork")
         results = []
-        with ProcessPoolExecutor(max_workers=workers, mp_context=ctx) as ex:
-            futs = [ex.submit(_worker, t) for t in tasks]
-            try:
-                for f in futs:
-                    results.append(f.result(timeout=3600))
-            except BrokenProcessPool:
-                raise HarnessError("a worker process died")
-            except Exception as e:  # timeout etc.
-                for f in futs:
-                    f.cancel()
-                raise HarnessError("worker failure: %r" % (e,))
+        pool = ctx.Pool(processes=workers, maxtasksperchild=1)
+        try:
+            asyncs = [pool.apply_async(_worker, (t,)) for t in tasks]
+            for a in asyncs:
+                try:
+                    results.append(a.get(timeout=3600))
+                except multiprocessing.TimeoutError:
+                    raise HarnessError("a worker process died or timed out")
+            pool.close()
+        except BaseException:
+            pool.terminate()
+            raise
+        finally:
+            pool.join()
     for r in results:
         if "harness_error" in r:
             raise HarnessError("worker raised:\n" + r["harness_error"])
@@ -402,6 +408,41 @@ def write_replay(prop, seed, idx, case, vrec, original_len, tier):
     return path
 
 
+def write_sequence_replay(prop, seed, tier, vinfo):
+    """The violation did not reproduce from its own case in a fresh interpreter: it depends on state the code under
+    test keeps across runs inside one process (a module-level cache, say).  The replay is then the SEQUENCE of cases
+    the worker executed from its start up to the failing one."""
+    d = os.environ.get("VERIF_REPLAY_DIR") or os.path.join(VERIF, "replays")
+    os.makedirs(d, exist_ok=True)
+    path = os.path.join(d, "%s-%d-%d-seq.json" % (prop, seed, vinfo["idx"]))
+    cases = [case_for(prop, tier, seed, i) for i in vinfo["chunk_prefix"]]
+    with open(path, "w") as f:
+        json.dump({"mode": "sequence", "property": prop, "cases": cases, "violation": vinfo["violation"], "original_seed": seed,
+                   "run_index": vinfo["idx"], "tier": tier, "pythonhashseed": os.environ.get("PYTHONHASHSEED", "random"),
+                   "note": "violation depends on process-global state carried over from earlier runs; replay executes all cases in order"}, f)
+    return path
+
+
+def replay_sequence(doc):
+    last = None
+    for case in doc["cases"]:
+        last = run_case(case, want_log=True)
+        if last["violation"] is not None and same_violation(last["violation"], doc["violation"]):
+            return last
+    return last
+
+
+def _precheck_child(args):
+    prop, tier, seed, n = args
+    seams.install()
+    out = []
+    for idx in range(n):
+        a = run_case(case_for(prop, tier, seed, idx))["digest"]
+        b = run_case(case_for(prop, tier, seed, idx))["digest"]
+        out.append((a, b))
+    return out
+
+
 def replay_file(path):
     with open(path) as f:
         doc = json.load(f)
@@ -425,13 +466,16 @@ def verify_replay_fresh(prop, path):
 def determinism_precheck(prop, tier, seed, n=3):
     """n run seeds executed twice in-process and once more in a fresh
     interpreter under another PYTHONHASHSEED; digests must match."""
+    # executed in a forked child so that the main process (which later forks the workers) never runs a case itself:
+    # a worker's process state is then exactly the history of its own chunk, which is what a sequence replay re-creates
+    ctx = multiprocessing.get_context("fork")
+    with ProcessPoolExecutor(max_workers=1, mp_context=ctx) as ex:
+        pairs = ex.submit(_precheck_child, (prop, tier, seed, n)).result(timeout=900)
     first = []
-    for idx in range(n):
-        case = case_for(prop, tier, seed, idx)
-        a = run_case(case)["digest"]
-        b = run_case(case_for(prop, tier, seed, idx))["digest"]
+    carried = False
+    for idx, (a, b) in enumerate(pairs):
         if a != b:
-            raise HarnessError("nondeterminism in-process: %s idx=%d" % (prop, idx))
+            carried = True
         first.append(a)
     env = dict(os.environ)
     env["PYTHONHASHSEED"] = str(1 + (seed % 1000))
@@ -441,7 +485,12 @@ def determinism_precheck(prop, tier, seed, n=3):
     if p.returncode != 0:
         raise HarnessError("determinism sub-run failed: %s" % p.stderr.decode("utf-8", "replace")[-2000:])
     other = p.stdout.decode().split()
-    res = {"seeds_checked": n, "in_process_twice": True, "fresh_interpreter_other_hashseed": other == first}
+    res = {"seeds_checked": n, "in_process_twice": not carried, "fresh_interpreter_other_hashseed": other == first}
+    if carried:
+        # the same case gives another event log the second time in one process: the tree under test carries state from
+        # run to run (the harness resets everything it owns per run).  Violations that depend on it get a sequence replay.
+        res["note_state"] = "event log of a case changes when it is executed a second time in the same process"
+        print("NOTE: %s" % res["note_state"])
     if other != first:
         # Same process + same hash seed is exactly repeatable (checked above), and bin/check pins PYTHONHASHSEED,
         # so replays stay exact.  A difference across hash seeds means the CODE UNDER TEST behaves differently under
